@@ -36,7 +36,8 @@ Theorem setitem_special_plain k0 v s : plainp (lower k0) = false -> plain (fst (
 Proof.
   intros Hp. unfold setitem. unfold plainp, is_special in Hp. apply negb_false_iff, orb_true_iff in Hp.
   destruct (String.eqb (lower k0) "style") eqn:E2.
-  - destruct v as [x|]; simpl; auto. unfold plain. simpl. rewrite kfilter_od_set_out by reflexivity.
+  - set (x := match v with Some x => x | None => "" end). cbn [fst]. unfold plain. cbn [dict with_dict].
+    rewrite kfilter_od_set_out by reflexivity.
     fold (plain (assign_style (as_str (sty (ensure_style (with_sty (styleToDict x) s)))) (ensure_style (with_sty (styleToDict x) s)))).
     now rewrite plain_assign_style, plain_ensure_style.
   - destruct Hp as [Hp|Hp]; [|discriminate]. rewrite Hp. reflexivity.
@@ -116,7 +117,7 @@ Proof. intros H. unfold assign_style. apply keysok_ensure, keysok_ensure. exact 
 Lemma keysok_setitem k v s : KeysOK s -> KeysOK (fst (setitem k v s)).
 Proof.
   intros H. unfold setitem. destruct (String.eqb (lower k) "style").
-  - destruct v; simpl; auto. unfold KeysOK. simpl. apply keys_od_set_NoDup. apply keysok_assign, keysok_ensure. exact H.
+  - cbn [fst]. unfold KeysOK. cbn [dict with_dict]. apply keys_od_set_NoDup. apply keysok_assign, keysok_ensure. exact H.
   - destruct (String.eqb (lower k) "class"); simpl; auto. destruct (is_binary_string (lower k)); simpl; auto.
     unfold KeysOK. simpl. now apply keys_od_set_NoDup.
 Qed.
@@ -293,17 +294,17 @@ Proof. intros H. apply Forall_forall. intros x Hx. apply (proj1 (removeClass_gen
 Lemma good_addClass fuel v l : GoodList l -> GoodList (addClass_f fuel v l).
 Proof. intros H. destruct (addClass_general fuel v l) as (t & E & _ & G). rewrite E. auto. Qed.
 
+Lemma classes_assign v s : classes (assign_style v s) = classes s.
+Proof. unfold assign_style, ensure_style. simpl.
+  repeat match goal with |- context [match ?x with [] => _ | _ => _ end] => destruct x; simpl end; reflexivity. Qed.
 Lemma inv_setitem k v s : Reach_inv s -> Reach_inv (fst (setitem k v s)).
 Proof.
   intros [H1 H2]. split; [now apply keysok_setitem|]. unfold setitem.
   destruct (String.eqb (lower k) "style").
-  - destruct v; simpl; auto. unfold assign_style, ensure_style. simpl.
-    repeat match goal with |- context [match ?x with [] => _ | _ => _ end] => destruct x; simpl end; exact H2.
+  - cbn [fst classes with_dict]. rewrite classes_assign. unfold ensure_style. cbn [sty with_sty classes].
+    destruct (styleToDict _); exact H2.
   - destruct (String.eqb (lower k) "class"); simpl; [apply words_good|]. destruct (is_binary_string (lower k)); simpl; exact H2.
 Qed.
-Lemma classes_assign v s : classes (assign_style v s) = classes s.
-Proof. unfold assign_style, ensure_style. simpl.
-  repeat match goal with |- context [match ?x with [] => _ | _ => _ end] => destruct x; simpl end; reflexivity. Qed.
 Lemma inv_delitem k s : Reach_inv s -> Reach_inv (delitem k s).
 Proof.
   intros [H1 H2]. split; [now apply keysok_delitem|]. unfold delitem.
